@@ -689,6 +689,85 @@ Proof.
   intro H; vm_compute in H; discriminate H.
 Qed.
 
+(** * (A'') the EXECUTED MOIST whole-state model (MoistPrimitiveEquations = explicit_terms_full_moist with cloud = false, tracer 0 =
+    specific humidity) at rest: isothermal, uniform humidity q0, lnps = cst * (0,0)-spectrum - g orog / (R T0 (1 + eps q0)),
+    eps = Rv/R - 1.  On every in-range coefficient the total vorticity, temperature and lnps tendencies vanish and the divergence
+    tendency is g/(1 + eps q0) (lap orog - clip (lap orog)).  Linearity and lap(constant) = 0 are discharged.  Named table hypotheses
+    (all restricted to the index ranges; checked by the plugin on the implementation's tables): H_q_uniform, H_gradq_zero (nodal
+    humidity = q0, its nodal cos-lat gradient = 0), H_lap_one (to_modal(1) has no laplacian), H_lapn (laplacian(lnps) survives
+    to_nodal -> to_modal under the clip). *)
+Theorem C05_whole_state_rest_isothermal_steady_moist {F : Type} {o : Ops F} {Fc : FieldC o}
+        (g : @HGrid F) (c : @PEcfg F) (m : @Moist F) (grav T0 cst v00 q0 : F) (orog : nat -> nat -> F) (s : @State F) :
+  cR c * T0 <> 0 -> cR c <> 0 -> 1 + (mRv m / cR c - 1) * q0 <> 0 ->
+  (forall k, (k < cK c)%nat -> cTref c k = T0) ->
+  (forall k a l, (k < cK c)%nat -> (a < hR g)%nat -> (l < hL g)%nat -> s_vort s k a l = 0) ->
+  (forall k a l, (k < cK c)%nat -> (a < hR g)%nat -> (l < hL g)%nat -> s_div s k a l = 0) ->
+  (forall k a l, (k < cK c)%nat -> (a < hR g)%nat -> (l < hL g)%nat -> s_temp s k a l = 0) ->
+  (forall a l, (a < hR g)%nat -> (l < hL g)%nat ->
+               s_lnps s a l = cst * onem00 v00 (a, l) - grav / (cR c * T0 * (1 + (mRv m / cR c - 1) * q0)) * orog a l) ->
+  s_tr s <> [] ->
+  (forall k i j, (k < cK c)%nat -> (i < hI g)%nat -> (j < hJ g)%nat -> to_nodal g (q_modal s k) i j = q0) ->
+  (forall k i j, (k < cK c)%nat -> (i < hI g)%nat -> (j < hJ g)%nat ->
+                 to_nodal g (fst (gradm g (q_modal s k))) i j = 0 /\ to_nodal g (snd (gradm g (q_modal s k))) i j = 0) ->
+  (forall a l, (a < hR g)%nat -> (l < hL g)%nat -> lap_c g (toM_c g (fun _ => 1)) (a, l) = 0) ->
+  (forall a l, (a < hR g)%nat -> (l < hL g)%nat ->
+               clip_c g (toM_c g (lapn0 g s)) (a, l) = clip_c g (lap_c g (unc (s_lnps s))) (a, l)) ->
+  forall k a l, (k < cK c)%nat -> (a < hR g)%nat -> (l < hL g)%nat ->
+    let E := explicit_terms_full_moist g false c m grav orog s in
+    let I := implicit_terms_full g c s in
+    s_vort E k a l + s_vort I k a l = 0 /\
+    s_temp E k a l + s_temp I k a l = 0 /\
+    s_lnps E a l + s_lnps I a l = 0 /\
+    s_div E k a l + s_div I k a l = grav / (1 + (mRv m / cR c - 1) * q0) * (lapm g orog a l - clipm g (lapm g orog) a l) /\
+    ((l < hL g - 1)%nat -> s_div E k a l + s_div I k a l = 0).
+Proof.
+  intros H1 H2 H3 H4 H5 H6 H7 H8 H9 H10 H11 H12 H13 k a l Hk Ha Hl.
+  exact (whole_state_rest_isothermal_steady_moist g c m grav T0 cst v00 q0 orog s H1 H2 H3 H4 H5 H6 H7 H8 H9 H10 H11 H12 H13 k a l Hk Ha Hl).
+Qed.
+
+(** non-vacuity: the zonal grid [rest_grid] over Qc (the (0,0)-only spectrum 1 synthesises to the constant one), K = 3, Rv/R = 3/2,
+    q0 = 1/100, orography with content in every total wavenumber: every hypothesis holds on the index ranges, the implicit half is
+    non-zero, the total divergence tendency vanishes at l = 1 and is the non-zero residual at the clipped l = 2 *)
+Definition restm_moist : @Moist Qc := mkMoist (Q2Qc (3#7)) (Q2Qc (2#1)).
+Definition restm_lnps (a l : nat) : Qc :=
+  Q2Qc 3 * onem00 (Q2Qc 1) (a, l)
+  - Q2Qc 9 / (cR ex_cfg * Q2Qc 250 * (1 + (mRv restm_moist / cR ex_cfg - 1) * Q2Qc (1#100))) * rest_orog a l.
+Definition restm_state : @State Qc :=
+  mkState (fun _ _ _ => 0) (fun _ _ _ => 0) (fun _ _ _ => 0) restm_lnps [fun _ a l => Q2Qc (1#100) * onem00 (Q2Qc 1) (a, l)].
+Example C05_whole_state_rest_moist_hyps_satisfiable :
+  let g := rest_grid in let s := restm_state in let q0 := Q2Qc (1#100) in
+  let E := explicit_terms_full_moist g false ex_cfg restm_moist (Q2Qc 9) rest_orog s in
+  let I := implicit_terms_full g ex_cfg s in
+  1 + (mRv restm_moist / cR ex_cfg - 1) * q0 <> 0 /\ s_tr s <> [] /\
+  (forall k i j, (k < cK ex_cfg)%nat -> (i < hI g)%nat -> (j < hJ g)%nat -> to_nodal g (q_modal s k) i j = q0) /\
+  (forall k i j, (k < cK ex_cfg)%nat -> (i < hI g)%nat -> (j < hJ g)%nat ->
+                 to_nodal g (fst (gradm g (q_modal s k))) i j = 0 /\ to_nodal g (snd (gradm g (q_modal s k))) i j = 0) /\
+  (forall a l, (a < hR g)%nat -> (l < hL g)%nat -> lap_c g (toM_c g (fun _ => 1)) (a, l) = 0) /\
+  (forall a l, (a < hR g)%nat -> (l < hL g)%nat ->
+               clip_c g (toM_c g (lapn0 g s)) (a, l) = clip_c g (lap_c g (unc (s_lnps s))) (a, l)) /\
+  s_div I 1%nat 0%nat 1%nat <> 0 /\ s_div E 1%nat 0%nat 1%nat + s_div I 1%nat 0%nat 1%nat = 0 /\
+  s_div E 1%nat 0%nat 2%nat + s_div I 1%nat 0%nat 2%nat <> 0.
+Proof.
+  cbv zeta.
+  split; [intro H; vm_compute in H; discriminate H|].
+  split; [discriminate|].
+  split.
+  { intros k i j _ Hi Hj. change (hI rest_grid) with 1%nat in Hi. change (hJ rest_grid) with 2%nat in Hj.
+    destruct i as [|i]; [|lia]. destruct j as [|[|j]]; [| |lia]; apply Qc_is_canon; vm_compute; reflexivity. }
+  split.
+  { intros k i j _ Hi Hj. change (hI rest_grid) with 1%nat in Hi. change (hJ rest_grid) with 2%nat in Hj.
+    destruct i as [|i]; [|lia]. destruct j as [|[|j]]; [| |lia]; split; apply Qc_is_canon; vm_compute; reflexivity. }
+  split.
+  { intros a l Ha Hl. change (hR rest_grid) with 1%nat in Ha. change (hL rest_grid) with 3%nat in Hl.
+    destruct a as [|a]; [|lia]. destruct l as [|[|[|l]]]; [| | |lia]; apply Qc_is_canon; vm_compute; reflexivity. }
+  split.
+  { intros a l Ha Hl. change (hR rest_grid) with 1%nat in Ha. change (hL rest_grid) with 3%nat in Hl.
+    destruct a as [|a]; [|lia]. destruct l as [|[|[|l]]]; [| | |lia]; apply Qc_is_canon; vm_compute; reflexivity. }
+  split; [intro H; vm_compute in H; discriminate H|].
+  split; [apply Qc_is_canon; vm_compute; reflexivity|].
+  intro H; vm_compute in H; discriminate H.
+Qed.
+
 (** * (D) shallow water on the MODEL of shallow_water.py: explicit_terms (the assembly [Section SWAssembly] of Model/ShallowWater.v
     that [sw_explicit_terms] instantiates at the concrete operators) + implicit_terms (Model/Implicit.v [sw_implicit_terms]) are the
     clipped modal div / curl / laplacian of the analysed specification quantities of Model/PrimEqSpec.v (absolute-vorticity flux,
@@ -749,6 +828,62 @@ Section C05_sw_model.
   Proof. exact (sw_model_jet_steady_partial W P toM divc curlc lap clip toM_lin divc_lin lap_lin clip_lin N dens X pot dive orog ref lam lap_diag r w). Qed.
 End C05_sw_model.
 
+(** the same for the EXECUTED shallow-water model: [sw_explicit_terms] of Model/ShallowWater.v (concrete transforms of Model/SHT.v,
+    spectral operators of Model/Deriv.v, both layouts, every table set, any number of layers, orography or None) + the implicit terms.
+    The linearity hypotheses and [lap_diag] of [C05_sw_model_refines_spec] are DISCHARGED for the concrete operators
+    (sw_toM_lin, sw_divc_lin, sw_curlc_lin, sw_lap_lin, sw_clip_lin in Thm/SteadyFull.v); what remains are the two named exactness
+    obligations H_sw_pot_clip, H_sw_div_vel at the coefficient in question. *)
+Theorem C05_sw_concrete_refines_spec {F : Type} {o : Ops F} {Fc : FieldC o}
+        (fast : bool) (R L I J N : nat) (f : nat -> nat -> F) (p : nat -> nat -> nat -> F) (wq : nat -> F) (rad : F) (wa wb : @arr2 F)
+        (dens : nat -> F) (omega : F) (sinlat : nat -> F) (orog : option (@arr2 F)) (vort dive pot : nat -> @arr2 F) (ref : nat -> F)
+        r (w : Wn) :
+  let X := sw_cols_of_state fast R L I J N f p rad wa wb vort dive pot (sw_sec2 sinlat) (sw_coriolis omega sinlat) in
+  let potw := fun k => sw_pk (pot k) in
+  let orogw := option_map sw_pk orog in
+  let toMs := sw_toM R L I J f p wq in
+  let divs := sw_divc fast R L rad wa wb in
+  let curls := sw_curlc fast R L rad wa wb in
+  let laps := sw_lap L rad in
+  let clips := sw_clip L in
+  (r < N)%nat ->
+  clips (laps (potw r)) w = laps (potw r) w ->
+  clips (divs (toMs (fun q => s_u (X q) r * s_sec2 (X q))) (toMs (fun q => s_v (X q) r * s_sec2 (X q)))) w = sw_pk (dive r) w ->
+  let E := sw_explicit_terms fast R L I J N f p wq rad wa wb dens omega sinlat orog vort dive pot in
+  let imp := sw_implicit_terms (ref r) (lap_eig L rad (snd w)) (dive r (fst w) (snd w), pot r (fst w) (snd w)) in
+  fst (fst E) r w + 0
+  = clips (fun w' => - divs (toMs (sw_flux_u Wn X r)) (toMs (sw_flux_v Wn X r)) w') w /\
+  snd (fst E) r w + fst imp
+  = clips (fun w' => curls (toMs (sw_flux_u Wn X r)) (toMs (sw_flux_v Wn X r)) w'
+                     - laps (fun w2 => sumn N (fun j => sw_Rm dens r j * potw j w2) + sw_orog0 Wn orogw w2
+                                       + toMs (sw_kin Wn X r) w2) w') w /\
+  snd E r w + snd imp
+  = clips (fun w' => - divs (toMs (sw_mass_u Wn X ref r)) (toMs (sw_mass_v Wn X ref r)) w') w.
+Proof.
+  cbv zeta. intros Hr Hpc Hdv.
+  exact (sw_concrete_refines_spec fast R L I J f p wq rad wa wb N dens omega sinlat orog vort dive pot ref r w Hr Hpc Hdv).
+Qed.
+
+(** non-vacuity at the concrete operators: the zonal grid [rest_grid] (reference layout), two layers at rest with non-zero
+    potentials: both obligations hold at the coefficient (0, 1) and the implicit divergence term is non-zero there *)
+Definition swc_pot (k a l : nat) : Qc :=
+  match a, l with O, O => Q2Qc 1 | O, S O => Q2Qc (inject_Z (Z.of_nat (S k)) / 3) | _, _ => 0 end.
+Example C05_sw_concrete_hyps_satisfiable :
+  let g := rest_grid in
+  let zero := fun (_ _ _ : nat) => (0 : Qc) in
+  let X := sw_cols_of_state false 1 3 1 2 2 (hf g) (hp g) (hr g) (ha g) (hb g) zero zero swc_pot (sw_sec2 (hsin g)) (sw_coriolis (Q2Qc (1#2)) (hsin g)) in
+  let toMs := sw_toM 1 3 1 2 (hf g) (hp g) (hw g) in
+  let divs := sw_divc false 1 3 (hr g) (ha g) (hb g) in
+  let w := (0%nat, 1%nat) in
+  sw_clip 3 (sw_lap 3 (hr g) (sw_pk (swc_pot 1))) w = sw_lap 3 (hr g) (sw_pk (swc_pot 1)) w /\
+  sw_clip 3 (divs (toMs (fun q => s_u (X q) 1 * s_sec2 (X q))) (toMs (fun q => s_v (X q) 1 * s_sec2 (X q)))) w = sw_pk (zero 1%nat) w /\
+  fst (sw_implicit_terms (Q2Qc (7#10)) (lap_eig 3 (hr g) 1) (zero 1%nat 0%nat 1%nat, swc_pot 1 0 1)) <> 0.
+Proof.
+  cbv zeta.
+  split; [apply Qc_is_canon; vm_compute; reflexivity|].
+  split; [apply Qc_is_canon; vm_compute; reflexivity|].
+  intro H; vm_compute in H; discriminate H.
+Qed.
+
 (** non-vacuity of the shallow-water hypotheses: one coefficient / one node over Qc, to_modal = clip = identity, div(x,y) = x + y,
     laplacian = multiplication by -2, two layers with densities 1 and 3/2: the hypotheses hold and both implicit terms are non-zero *)
 Definition sw_ex_col : @SWCol Qc :=
@@ -808,3 +943,7 @@ Print Assumptions C05_whole_state_rest_hyps_satisfiable.
 Print Assumptions C05_sw_model_refines_spec.
 Print Assumptions C05_sw_model_jet_steady_partial.
 Print Assumptions C05_sw_model_hyps_satisfiable.
+Print Assumptions C05_sw_concrete_refines_spec.
+Print Assumptions C05_sw_concrete_hyps_satisfiable.
+Print Assumptions C05_whole_state_rest_isothermal_steady_moist.
+Print Assumptions C05_whole_state_rest_moist_hyps_satisfiable.
